@@ -124,7 +124,7 @@ fn check(c: &Case, rec: &mut Rec) -> Result<(), String> {
 
 pub fn run(ctx: &mut Ctx) {
     ctx.rule("cases = executed size, builder factor (0, <= 1 %, <= 100 %, mixture), collateral price (min = 1, zero, spread), collateral increment, available output, withdrawal amount, decrease swap type; oracle (BigInt) = fee == ceil(floor(size*factor/UNIT)/price.min) or failure exactly when the price is zero / the value overflows; increase: remaining + fee == increment, rejected iff fee > increment; clamp == min(fee, available); withdrawal estimate == withdrawal + fee, zero factor is the identity, collateral->pnl-token swap rejected with a non-zero factor; non-trivial = non-zero factor and price");
-    ctx.assume("helper level only (ops::order::verif hooks); the settlement instruction (settle_builder_fee: transfer min(recorded, escrow), zero the record, idempotent) needs the W2 exchange world and is not executed by this check");
+    ctx.assume("fee arithmetic is checked at helper level (ops::order::verif hooks); the settlement clause is the search `settlement`, executed through the real settle_builder_fee instruction in the svm-lite exchange world");
     let n = ctx.cases(200_000, 10_000_000);
     ctx.search("builder_fee", n, case, check);
     ctx.floor("builder_fee:fee_positive", 20_000);
